@@ -423,6 +423,7 @@ func buildIntrinsics() map[string]Intrinsic {
 
 	// ---- sync/atomic
 	atomicLoad := func(g *Goroutine, c *frame, fn *ssa.Function, a []Value) (Value, bool) {
+		g.visible()
 		if r := g.p.race; r != nil {
 			r.acquire(g, a[0].ptr())
 			return copyVal(*a[0].ptr()), true
@@ -430,6 +431,7 @@ func buildIntrinsics() map[string]Intrinsic {
 		return c.load(a[0].ptr()), true
 	}
 	atomicStore := func(g *Goroutine, c *frame, fn *ssa.Function, a []Value) (Value, bool) {
+		g.visible()
 		if r := g.p.race; r != nil {
 			r.release(g, a[0].ptr())
 			*a[0].ptr() = copyVal(a[1])
@@ -439,6 +441,7 @@ func buildIntrinsics() map[string]Intrinsic {
 		return Value{}, true
 	}
 	atomicAdd := func(g *Goroutine, c *frame, fn *ssa.Function, a []Value) (Value, bool) {
+		g.visible()
 		p := a[0].ptr()
 		old := c.load(p)
 		nv := c.intBinop(token.ADD, fn.Signature.Results().At(0).Type(), old, a[1])
@@ -446,12 +449,14 @@ func buildIntrinsics() map[string]Intrinsic {
 		return nv, true
 	}
 	atomicSwap := func(g *Goroutine, c *frame, fn *ssa.Function, a []Value) (Value, bool) {
+		g.visible()
 		p := a[0].ptr()
 		old := c.load(p)
 		c.store(p, a[1])
 		return old, true
 	}
 	atomicCAS := func(g *Goroutine, c *frame, fn *ssa.Function, a []Value) (Value, bool) {
+		g.visible()
 		p := a[0].ptr()
 		old := c.load(p)
 		if c.truth(c.equal(nil, old, a[1])) {
